@@ -7,7 +7,9 @@ the REAL `IBMQNoiseModel().from_dict(parameters)` / `.apply(circuit)`:
 
   * generated parameter dictionaries in every documented form (global number / per-qubit dict for
     each of depolarizing_one_qubit, depolarizing_two_qubit, t1+t2, readout_one_qubit; dict keys in
-    any insertion order, "a-b" / "a - b" pair keys in both orientations, readout values as
+    any insertion order; the key STRINGS are handed to the model, which parses them (`parsePairKey`,
+    `parseQubitKey`): "a-b" / "a - b" / " a -b" pair keys in both orientations, registers of 2-4 and
+    of 11-13 qubits so that multi-digit numerals ("10-11", "3 - 12") occur; readout values as
     number / 1-list / pair / longer tuple), the undocumented corners of the code (a value that is
     neither number nor dict; t1 and t2 of different types; a t1 key missing in t2 -> KeyError;
     an empty readout tuple -> IndexError) and circuits with 1-, 2- and 3-qubit gates, controlled
@@ -44,8 +46,21 @@ class Values:
         return self.vals[i]
 
 
-def gen_params(rng, n, vt, allow_global_readout, corner):
-    """structured description S of a parameters dict (values are identifiers in vt)."""
+def qkey(rng, q, plain=False):
+    """the key string of a per-qubit dict (`int(key)` ignores surrounding blanks)."""
+    if plain or rng.random() < 0.85:
+        return str(q)
+    return rng.choice([f" {q}", f"{q} ", f" {q} "])
+
+
+def pkey(rng, a, b):
+    """the key string of a pair: "a-b", blanks anywhere around the numerals."""
+    return rng.choice([f"{a}-{b}", f"{a}-{b}", f"{a} - {b}", f"{a}- {b}", f" {a} -{b}", f"{a}  -  {b} "])
+
+
+def gen_params(rng, n, vt, allow_global_readout, corner, hot_pairs=()):
+    """structured description S of a parameters dict (values are identifiers in vt; dict keys are
+    the key STRINGS).  hot_pairs: (control, target) tuples of two-qubit gates of the circuit."""
     ctr = itertools.count(1)
 
     def lam():  # distinct dyadic strengths: a channel identifies the entry it came from
@@ -58,16 +73,33 @@ def gen_params(rng, n, vt, allow_global_readout, corner):
 
     S = {}
     r = rng.random()
-    S["dep1"] = ("num", lam()) if r < 0.4 else (("other",) if corner and r > 0.93 else ("dict", [(q, lam()) for q in qsub()]))
+    S["dep1"] = ("num", lam()) if r < 0.4 else (("other",) if corner and r > 0.93 else ("dict", [(qkey(rng, q), lam()) for q in qsub()]))
     r = rng.random()
     if r < 0.4:
         S["dep2"] = ("num", lam())
     elif corner and r > 0.93:
         S["dep2"] = ("other",)
     else:
-        pairs = list(itertools.permutations(range(n), 2))
-        ks = rng.sample(pairs, min(len(pairs), rng.randint(1, 4)))
-        S["dep2"] = ("dict", [(list(k), lam(), rng.random() < 0.3) for k in ks])  # third: spaces in the key
+        ks = []
+        for a, b in hot_pairs:  # pairs that fire, their reversals (which must not), and unrelated ones
+            f = rng.random()
+            if f < 0.6:
+                ks.append((a, b))
+            if f > 0.4 and rng.random() < 0.7:
+                ks.append((b, a))
+        ks += [tuple(rng.sample(range(n), 2)) for _ in range(rng.randint(0, 2))]
+        if not ks:
+            ks = [tuple(rng.sample(range(n), 2))]
+        seen, uniq = set(), []
+        for k in ks:
+            if k not in seen:
+                seen.add(k)
+                uniq.append(k)
+        rng.shuffle(uniq)
+        items = [(pkey(rng, a, b), lam()) for a, b in uniq[:6]]
+        if corner and rng.random() < 0.2:
+            items.append((rng.choice(["3--4", "0-", "a-1", ""]), lam()))  # not a pair of numerals: ValueError
+        S["dep2"] = ("dict", items)
     r = rng.random()
 
     def tvals():
@@ -79,15 +111,15 @@ def gen_params(rng, n, vt, allow_global_readout, corner):
         S["t1"], S["t2"] = ("num", a), ("num", b)
     elif corner and r > 0.75:
         a, b = tvals()
-        S["t1"], S["t2"] = rng.choice([(("num", a), ("dict", [(0, b)])), (("dict", [(0, a)]), ("num", b)), (("other",), ("num", b))])
+        S["t1"], S["t2"] = rng.choice([(("num", a), ("dict", [("0", b)])), (("dict", [("0", a)]), ("num", b)), (("other",), ("num", b))])
     else:
         qs = qsub()
-        pairs = [(q,) + tvals() for q in qs]
+        pairs = [(str(q),) + tvals() for q in qs]  # t2 is looked up with the key string of t1: plain numerals
         l1 = [(q, a) for q, a, _ in pairs]
         l2 = [(q, b) for q, _, b in pairs]
         rng.shuffle(l2)
         if rng.random() < 0.3:
-            l2.append((n + 2, vt.new(0.25)))  # an extra key of t2 is never read
+            l2.append((str(n + 2), vt.new(0.25)))  # an extra key of t2 is never read
         if corner and rng.random() < 0.35:
             l2 = [e for e in l2 if e[0] != l1[-1][0]]  # KeyError at the last key of t1
         S["t1"], S["t2"] = ("dict", l1), ("dict", l2)
@@ -101,6 +133,7 @@ def gen_params(rng, n, vt, allow_global_readout, corner):
         items = []
         for q in qsub():
             f = rng.random()
+            q = qkey(rng, q)
             if f < 0.3:
                 items.append((q, ("num", lam())))
             elif f < 0.5:
@@ -123,12 +156,9 @@ def params_src(S, vt):
             return repr(vt[v[1]])
         if v[0] == "other":
             return "None"
-        return "{" + ", ".join(f"{str(k)!r}: {vt[x]!r}" for k, x in v[1]) + "}"
+        return "{" + ", ".join(f"{k!r}: {vt[x]!r}" for k, x in v[1]) + "}"
 
-    def pv2(v):
-        if v[0] != "dict":
-            return pv(v)
-        return "{" + ", ".join(f"{(' - ' if sp else '-').join(map(str, k))!r}: {vt[x]!r}" for k, x, sp in v[1]) + "}"
+    pv2 = pv
 
     def rov(v):
         if v[0] == "num":
@@ -139,35 +169,36 @@ def params_src(S, vt):
     def ro(v):
         if v[0] != "dict":
             return pv(v)
-        return "{" + ", ".join(f"{str(k)!r}: {rov(x)}" for k, x in v[1]) + "}"
+        return "{" + ", ".join(f"{k!r}: {rov(x)}" for k, x in v[1]) + "}"
 
     return ("{" + f"'depolarizing_one_qubit': {pv(S['dep1'])}, 'depolarizing_two_qubit': {pv2(S['dep2'])}, "
             f"'t1': {pv(S['t1'])}, 't2': {pv(S['t2'])}, 'gate_times': ({vt[S['gt1']]!r}, {vt[S['gt2']]!r}), "
             f"'excited_population': {vt[S['ep']]!r}, 'readout_one_qubit': {ro(S['ro'])}" + "}")
 
 
+def key_tokens(k):
+    return f"{len(k)} " + " ".join(str(ord(ch)) for ch in k) if k else "0"
+
+
 def params_tokens(S):
-    def pv1(v):
+    """the dictionary for the driver: the key STRINGS go over as character codes, the model parses them."""
+
+    def pv(v):
         if v[0] == "num":
             return f"0 {v[1]}"
         if v[0] == "other":
             return "2"
-        return f"1 {len(v[1])} " + " ".join(f"{k} {x}" for k, x in v[1])
-
-    def pv2(v):
-        if v[0] != "dict":
-            return pv1(v)
-        return f"1 {len(v[1])} " + " ".join(f"{len(k)} {' '.join(map(str, k))} {x}" for k, x, _ in v[1])
+        return f"1 {len(v[1])} " + " ".join(f"{key_tokens(k)} {x}" for k, x in v[1])
 
     def ro(v):
         if v[0] != "dict":
-            return pv1(v)
+            return pv(v)
         out = [f"1 {len(v[1])}"]
         for k, x in v[1]:
-            out.append(f"{k} 0 {x[1]}" if x[0] == "num" else f"{k} 1 {len(x[1])} {' '.join(map(str, x[1]))}")
+            out.append(f"{key_tokens(k)} 0 {x[1]}" if x[0] == "num" else f"{key_tokens(k)} 1 {len(x[1])} {' '.join(map(str, x[1]))}")
         return " ".join(out)
 
-    return " ".join([pv1(S["dep1"]), pv2(S["dep2"]), pv1(S["t1"]), pv1(S["t2"]), str(S["gt1"]), str(S["gt2"]), str(S["ep"]), ro(S["ro"])]).replace("  ", " ")
+    return " ".join([pv(S["dep1"]), pv(S["dep2"]), pv(S["t1"]), pv(S["t2"]), str(S["gt1"]), str(S["gt2"]), str(S["ep"]), ro(S["ro"])]).replace("  ", " ")
 
 
 def parse_payload(tok, vt, C19):
@@ -264,11 +295,18 @@ def trace_form(descs, canon):
 
 FP_SRC = '''import hashlib
 def fp(g):
+    # class, qubits and a digest of the channel's own data (coefficients and operator matrices on its
+    # own qubits: independent of the size of the register)
     from qibo.backends import NumpyBackend
     if not isinstance(g, gates.Channel):
         return (g.__class__.__name__, tuple(g.qubits), "")
-    L = np.asarray(g.to_liouville(backend=NumpyBackend()))
-    h = hashlib.md5((np.round(L, 8) + 0.0).astype(complex).tobytes()).hexdigest()[:10]
+    nb = NumpyBackend()
+    co = np.round(np.real(np.asarray(g.coefficients, dtype=complex)), 8) + 0.0
+    if isinstance(g, gates.DepolarizingChannel):  # symmetric in its qubits: the Pauli strings are listed in qubit order
+        parts = [np.sort(co), np.array([float(len(g.gates))])]
+    else:
+        parts = [co] + [(np.round(np.asarray(u.matrix(nb)), 8) + 0.0).ravel() for u in g.gates]
+    h = hashlib.md5(np.concatenate(parts).astype(complex).tobytes()).hexdigest()[:10]
     return (g.__class__.__name__, tuple(sorted(g.qubits)), h)
 '''
 
@@ -284,27 +322,37 @@ def ibmq_model_suite(ctx, nb, C19):
     built, lines = [], []
     ncases = 220 if ctx.thorough else 70
     for k in range(ncases):
-        n = rng.choice([2, 3, 3, 4])
+        n = rng.choice([2, 3, 3, 4, 11, 12, 13])  # registers above 10 qubits: multi-digit keys ("10-11", "3 - 12")
         corner = k % 4 == 3
         multi_m = rng.random() < 0.5
         gs = C19.gen_circuit(rng, n, rng.randint(2, 7), allow_m=False, allow_chan=(k % 3 == 0))
+        if n > 10:  # gates on the qubits with two-digit indices, both orientations
+            for _ in range(rng.randint(1, 3)):
+                a = rng.randrange(10, n)
+                b = rng.choice([q for q in range(n) if q != a])
+                if rng.random() < 0.5:
+                    a, b = b, a
+                gs.insert(rng.randrange(len(gs) + 1), f"gates.{rng.choice(['CNOT', 'CZ', 'SWAP', 'CY'])}({a}, {b})")
+            gs.insert(rng.randrange(len(gs) + 1), f"gates.{rng.choice(['H', 'X', 'S'])}({rng.randrange(10, n)})")
         if n >= 3 and rng.random() < 0.4:
             gs.insert(rng.randrange(len(gs) + 1), f"gates.TOFFOLI({C19._q(rng.sample(range(n), 3))})")
         if multi_m:
-            gs.append(f"gates.M({C19._q(rng.sample(range(n), rng.randint(2, n)))})")
+            gs.append(f"gates.M({C19._q(rng.sample(range(n), rng.randint(2, min(n, 5))))})")
         else:
-            gs += [f"gates.M({q})" for q in rng.sample(range(n), rng.randint(1, n))]
+            gs += [f"gates.M({q})" for q in rng.sample(range(n), rng.randint(1, min(n, 5)))]
         if rng.random() < 0.3:  # a gate after a measurement
             gs.append(C19.gen_gate(rng, n, allow_m=False, allow_chan=False))
         vt = Values()
         # (a global number "readout_one_qubit" builds ONE unfiltered 2x2 rule: with a multi-qubit M the
         #  channel constructor rejects it with ValueError - documented limitation, not generated)
-        S = gen_params(rng, n, vt, allow_global_readout=not multi_m, corner=corner)
-        psrc = params_src(S, vt)
         csrc = f"c = Circuit({n}, density_matrix=True)\n" + "".join(f"c.add({g})\n" for g in gs)
+        hot = [tuple(g.qubits) for g in C19.run_source(csrc)["c"].queue if len(g.qubits) == 2 and not isinstance(g, ns0["gates"].Channel)]
+        S = gen_params(rng, n, vt, allow_global_readout=not multi_m, corner=corner, hot_pairs=hot)
+        psrc = params_src(S, vt)
         src = csrc + f"params = {psrc}\nnm = IBMQNoiseModel()\n"
         ns = C19.run_source(src)
         in_gates = list(ns["c"].queue)
+        ctx.stat("ibmq_model:register>10" if n > 10 else "ibmq_model:register<=4")
         line = " ".join(["IBMQ", str(C19.CLS_CODE["M"]), str(len(in_gates))] + [C19.gate_tokens(g) for g in in_gates] + [params_tokens(S)])
         built.append((src, ns, in_gates, S, vt, multi_m, corner))
         lines.append(line)
@@ -319,7 +367,7 @@ def ibmq_model_suite(ctx, nb, C19):
         raised = None
         try:
             nm.from_dict(ns["params"])
-        except (KeyError, IndexError) as e:
+        except (KeyError, IndexError, ValueError) as e:
             raised = e
         except Exception as e:  # noqa: BLE001
             bad += 1
@@ -333,10 +381,10 @@ def ibmq_model_suite(ctx, nb, C19):
         if (out.strip() == "RAISE") != (raised is not None):
             bad += 1
             what = (f"from_dict raises {type(raised).__name__}: {raised} where the documented forms give a model" if raised is not None
-                    else "from_dict accepts a dictionary whose t1 key is missing in t2 / whose readout tuple is empty")
+                    else "from_dict accepts a dictionary whose t1 key is missing in t2 / whose readout tuple is empty / with a key that is not a (pair of) numeral(s)")
             ctx.fail("ibmq:from_dict:raise-behaviour", what,
                      C19.PRELUDE + src + ("nm.from_dict(params)\n" if raised is not None else
-                                          "try:\n    nm.from_dict(params)\nexcept (KeyError, IndexError):\n    raise SystemExit(0)\nraise SystemExit(1)\n"),
+                                          "try:\n    nm.from_dict(params)\nexcept (KeyError, IndexError, ValueError):\n    raise SystemExit(0)\nraise SystemExit(1)\n"),
                      broken=["C19_corr_ibmq_model"])
             continue
         if raised is not None:
